@@ -979,10 +979,22 @@ def result(repo, out):
         while isinstance(t, ast.Subscript) and not (isinstance(t.slice, ast.Name) and t.slice.id == m.K):
             t = t.value
         return t
+    def cases(e, f, at, depth=0):
+        # split conditional expressions into (condition, expression) alternatives
+        if isinstance(e, ast.IfExp) and depth < 4:
+            t = boolx.from_ast(e.test, lambda y: m.atom(y, at))
+            return cases(e.body, boolx.And(f, t), at, depth + 1) + \
+                cases(e.orelse, boolx.And(f, boolx.Not(t)), at, depth + 1)
+        return [(f, e)]
+    todo = []
     for st in m.stores:
-        if not m.under_viol(st):
-            continue
-        e, at = st.value, m.at(st)
+        for f, e in cases(st.value, m.guard(st), m.at(st)):
+            val = m.sat(f, viol=True)
+            if val is not None:
+                todo.append((st, e, '' if e is st.value else
+                             f' (alternative `{astx.src(e)}`, taken for {boolx.fmt_val(val)})'))
+    for st, e, when in todo:
+        at = m.at(st)
         hops = 0
         while isinstance(e, ast.Name) and m.def_kinds(e, at) == {'copy'} and hops < 4:
             # a temporary that holds a private copy: judge the expression that made the copy
@@ -1002,7 +1014,7 @@ def result(repo, out):
             inner, fresh = m.peel_copy(cands[0])[0], True
         kind = m.arr_kind(inner, at)
         if kind is None:
-            out.unsure(m.fn, st, f'stored value `{astx.src(st.value)}` is not derived from the constraint vector')
+            out.unsure(m.fn, st, f'stored value `{astx.src(e)}` is not derived from the constraint vector')
             continue
         if isinstance(inner, ast.Name) and m.def_kinds(inner, at) == {'copy'}:
             fresh = True
@@ -1040,7 +1052,7 @@ def result(repo, out):
         # (iii) fresh copy
         if not fresh:
             if ncalls >= 2:
-                out.bad(m.fn, st, 'the result aliases the constraint vector: _compute_con_viol calls '
+                out.bad(m.fn, st, 'the result aliases the constraint vector' + when + ': _compute_con_viol calls '
                         'get_constraint_values twice and the second call repopulates the vector in place, '
                         'overwriting the violations returned by the first', key='result-aliases-vector')
             else:
@@ -2045,6 +2057,7 @@ _RUN = ("            with RecordingDebugging(self._get_name(), self.iter_count, 
         "                self.iter_count += 1\n"
         "                with model._relevance.nonlinear_active('iter'):\n"
         "                    self._run_solve_nonlinear()\n")
+_CHK = '        # an exception raised by the model inside _compute_con_viol was recorded there (and\n        # replaced by a zero violation vector so that scipy could return); surface it now.\n        if self._exc_info is not None:\n            self._reraise()\n\n'
 _CONCAT = ("list(lin_con_viol_dict.values()) +\n"
            "                                   list(nl_con_viol_dict.values())")
 
@@ -2222,10 +2235,29 @@ selftest(
            "                self._exc_info = sys.exc_info()\n            return np.zeros", "            return np.zeros", 'C22.surface'),
     Mutant('surface-recorded-on-wrong-branch', _D, "            if self._exc_info is None:  # only record the first one\n",
            "            if self._exc_info is not None:  # only record the first one\n", 'C22.surface'),
-    Twin('twin-reraise-after-lsq', _D,
-         "        if self._exc_info is not None:\n            self._reraise()\n\n        if iprint == 2:\n", "        if iprint == 2:\n",
-         also=[(_D, "        if iprint >= 1:\n            if res.success:\n",
-                "        if self._exc_info is not None:\n            self._reraise()\n\n        if iprint >= 1:\n            if res.success:\n")]),
+    Mutant('surface-prefix-reraise-before-lsq', _D, _CHK, '', 'C22.surface',
+           also=[(_D, "        if iprint == 2:\n            print()\n",
+                  "        if self._exc_info is not None:\n            self._reraise()\n\n        if iprint == 2:\n            print()\n")]),
+    Mutant('surface-reraise-removed', _D, _CHK, '', 'C22.surface'),
+    Mutant('surface-reraise-one-branch-only', _D, _CHK, '', 'C22.surface',
+           also=[(_D, "                res = f_lsq()\n                self.result.success = res.success and res.cost <= loss_tol\n",
+                  "                res = f_lsq()\n                self.result.success = res.success and res.cost <= loss_tol\n"
+                  "                if self._exc_info is not None:\n                    self._reraise()\n")]),
+    Twin('twin-reraise-right-after-each-run', _D, _CHK, '',
+         also=[(_D, "                res = f_lsq()\n                self.result.success = res.success and res.cost <= loss_tol\n",
+                "                res = f_lsq()\n                if self._exc_info is not None:\n                    self._reraise()\n"
+                "                self.result.success = res.success and res.cost <= loss_tol\n"),
+               (_D, "                    res = f_lsq()\n                    self.result.success = res.success and res.cost <= loss_tol\n",
+                "                    res = f_lsq()\n                    if self._exc_info is not None:\n                        self._reraise()\n"
+                "                    self.result.success = res.success and res.cost <= loss_tol\n")]),
+    Mutant('result-seed-view-when-viol', _D, 'con_dict[name] = con_vec[name].copy()',
+           'con_dict[name] = con_val if viol else con_vec[name].copy()', 'C22.result'),
+    Mutant('result-view-in-branch', _D, _STORE,
+           "            if viol:\n                con_dict[name] = con_val\n            else:\n                con_dict[name] = con_vec[name].copy()\n",
+           'C22.result'),
+    Twin('twin-np-array-of-view', _D, _STORE, "            val = con_vec[name]\n            con_dict[name] = np.array(val)\n"),
+    Twin('twin-conditional-copies', _D, 'con_dict[name] = con_vec[name].copy()',
+         'con_dict[name] = con_val.copy() if viol else con_vec[name].copy()'),
     Twin('twin-rows-all-swapped', _D, _CONCAT,
          "list(nl_con_viol_dict.values()) +\n                                   list(lin_con_viol_dict.values())",
          also=[(_D, 'chain(lincons.items(), nl_cons.items())', 'chain(nl_cons.items(), lincons.items())'),
